@@ -316,7 +316,12 @@ class SumEval:
                 self.block(f, st.orelse, e2, inrec, rets)
                 for k in set(e1) | set(e2):
                     a, b = e1.get(k, OTHER), e2.get(k, OTHER)
-                    env[k] = a if a == b else (("cond", a, b) if a[0] in ("acc", "zero") or b[0] in ("acc", "zero") else OTHER)
+                    if a == b:
+                        env[k] = a
+                    elif a[0] in ("rec-other", "acc-bad") or b[0] in ("rec-other", "acc-bad"):
+                        env[k] = a if a[0] in ("rec-other", "acc-bad") else b      # wrong on one of the two paths is wrong for some input
+                    else:
+                        env[k] = ("cond", a, b) if a[0] in ("acc", "zero") or b[0] in ("acc", "zero") else OTHER
             elif isinstance(st, (ast.With,)):
                 self.block(f, st.body, env, inrec, rets)
             # other statements do not concern the summation
